@@ -517,6 +517,101 @@ func checkC06(p *core.Program, r *core.Report) {
 		}
 	}
 	r.Floor(R7, 10)
+	// ... and what is handed to the SHIP layer is the whole message as the websocket library returned it
+	if mIn := p.IfaceMethod("api", "WebsocketDataReaderInterface", "HandleIncomingWebsocketMessage"); mIn == nil {
+		r.Unresolved(R7, "api.WebsocketDataReaderInterface.HandleIncomingWebsocketMessage")
+	} else {
+		nd := 0
+		for _, fn := range p.FuncsOf("ws") {
+			fn := fn
+			core.EachInstr(fn, func(in ssa.Instruction) {
+				if !core.IsInvokeOf(in, mIn) {
+					return
+				}
+				nd++
+				key := "delivered message in " + shortFn(p.FnName(fn)) + " is the whole received message"
+				if why := wholeMessage(p, core.Common(in).Args[0], 0); why != "" {
+					r.Fail(R7, key, p.Pos(in.Pos()), "the bytes delivered to the SHIP layer are "+why+": a datagram above the bound arrives cut off, fails to decode and is dropped while the connection stays open")
+				} else {
+					r.OK(R7, key, p.Pos(in.Pos()), "result of ReadMessage / of io.ReadAll on the message reader, unmodified")
+				}
+			})
+		}
+		if nd == 0 {
+			r.Fail(R7, "delivery site", "", "no call of HandleIncomingWebsocketMessage in package ws")
+		}
+	}
+}
+
+// wholeMessage traces a delivered byte slice back to the websocket library: "" when every source is the second
+// result of (*Conn).ReadMessage or io.ReadAll applied directly to the reader of (*Conn).NextReader.
+func wholeMessage(p *core.Program, v ssa.Value, depth int) string {
+	if depth > 6 {
+		return "of unknown origin"
+	}
+	const conn = "(*github.com/gorilla/websocket.Conn)."
+	switch x := v.(type) {
+	case *ssa.Const:
+		if x.IsNil() {
+			return ""
+		}
+	case *ssa.Phi:
+		for _, e := range x.Edges {
+			if why := wholeMessage(p, e, depth+1); why != "" {
+				return why
+			}
+		}
+		return ""
+	case *ssa.Slice:
+		if x.Low == nil && x.High == nil {
+			return wholeMessage(p, x.X, depth+1)
+		}
+		return "a sub-slice of the received message"
+	case *ssa.Extract:
+		call, ok := x.Tuple.(*ssa.Call)
+		if !ok {
+			return "of unknown origin"
+		}
+		switch core.CalleeName(&call.Call) {
+		case conn + "ReadMessage":
+			if x.Index == 1 {
+				return ""
+			}
+		case "io.ReadAll":
+			if x.Index == 0 {
+				if e, ok := call.Call.Args[0].(*ssa.Extract); ok && e.Index == 1 {
+					if c2, ok := e.Tuple.(*ssa.Call); ok && core.CalleeName(&c2.Call) == conn+"NextReader" {
+						return ""
+					}
+				}
+				return "read through a wrapper of the message reader (e.g. io.LimitReader)"
+			}
+		}
+		if t := call.Call.StaticCallee(); t != nil && t.Blocks != nil && p.InRepo(t) {
+			for _, b := range t.Blocks {
+				if ret, ok := b.Instrs[len(b.Instrs)-1].(*ssa.Return); ok && x.Index < len(ret.Results) {
+					if why := wholeMessage(p, ret.Results[x.Index], depth+1); why != "" {
+						return why
+					}
+				}
+			}
+			return ""
+		}
+		return "the result of " + core.CalleeName(&call.Call)
+	case *ssa.Call:
+		if t := x.Call.StaticCallee(); t != nil && t.Blocks != nil && p.InRepo(t) && t.Signature.Results().Len() == 1 {
+			for _, b := range t.Blocks {
+				if ret, ok := b.Instrs[len(b.Instrs)-1].(*ssa.Return); ok {
+					if why := wholeMessage(p, ret.Results[0], depth+1); why != "" {
+						return why
+					}
+				}
+			}
+			return ""
+		}
+		return "the result of " + core.CalleeName(&x.Call)
+	}
+	return "of unknown origin"
 }
 
 // checkWriterEnqueues (C06.R5).
